@@ -32,6 +32,14 @@ func (self *Compiler) dropPending(count uint, span errors.Span) {
 	}
 }
 
+// Returns whether the expression which is being compiled is the target of an assignment (only its outermost
+// index / member expression is: the flag is cleared for everything below it).
+func (self *Compiler) takePlace() bool {
+	place := self.place
+	self.place = false
+	return place
+}
+
 // Compiles an expression while `count` operands of the enclosing expression are waiting on the stack.
 func (self *Compiler) compileOperand(node ast.AnalyzedExpression, count uint) {
 	self.pending += count
